@@ -36,6 +36,14 @@ REL_TOL_PROPERTY = 1e-4      # "at the sum of covalent radii": the two-hydrogen 
 # ----------------------------------------------------------------------------------------------
 # generator
 # ----------------------------------------------------------------------------------------------
+def _sqrt_f(x) -> str:
+    """a printable square root of an exact rational that may be astronomically large"""
+    try:
+        return f"{math.sqrt(float(x)):.6f}"
+    except (OverflowError, ValueError):
+        return "more than 1e150"
+
+
 def unit(v):
     n = math.sqrt(sum(x * x for x in v))
     return tuple(x / n for x in v)
@@ -149,6 +157,28 @@ def grid_molecules(rng, elements_13_16, full):
                                       "xyz": tuple(atoms[0]["xyz"][c] + 1.5 * d[c] + jit[c] for c in range(3)), "pc": 0.0})
                         bonds.append([0, t + 1, bt, "1/1"] if t % 2 == 0 else [t + 1, 0, bt, "1/1"])
                     yield {"atoms": atoms, "bonds": bonds, "cls": "Structure", "sel": None}
+
+
+def hinted_molecules(rng):
+    """a drawing hint on a centre that already carries explicitly drawn hydrogens (a wedged stereo-H on CH2, an explicit
+    N–H beside an "NH" label): the hint counts the hydrogens still to be ADDED, whatever is bonded already"""
+    dirs = [(0.0, 0.0, 1.0), (0.9428, 0.0, -0.3333), (-0.4714, 0.8165, -0.3333), (-0.4714, -0.8165, -0.3333)]
+    for z in (5, 6, 7, 8, 14, 15, 16):
+        for hint in (0, 1, 2, 3):
+            for nh in (0, 1, 2, 3):
+                for nf in (0, 1, 2):
+                    if nh + nf + hint > 4 or nh + nf == 0:
+                        continue
+                    atoms = [{"z": z, "q": 0, "spin": 0, "cc": False, "hint": hint, "xyz": (0.25, -0.5, 0.125), "pc": 0.0}]
+                    bonds = []
+                    for t in range(nh + nf):
+                        d = dirs[t]
+                        jit = [0.1 * (rng.uniform() - 0.5) for _ in range(3)]
+                        atoms.append({"z": 1 if t < nh else 9, "q": 0, "spin": 0, "cc": False, "hint": None,
+                                      "xyz": tuple(atoms[0]["xyz"][c] + (1.05 if t < nh else 1.4) * d[c] + jit[c] for c in range(3)),
+                                      "pc": 0.0})
+                        bonds.append([0, t + 1, 1, "1/1"] if t % 2 == 0 else [t + 1, 0, 1, "1/1"])
+                    yield {"atoms": atoms, "bonds": bonds, "cls": "Molecule" if (nh + nf) % 2 else "Structure", "sel": None}
 
 
 def choose_subset(rng, mol, group_of):
@@ -436,7 +466,7 @@ def run_case(ctx, mol, origin, requests, live=None, group_of=None, radius_of=Non
             d2 = fdot(fsub(fvec(p), fa), fsub(fvec(p), fa))
             lo, hi = (L * (1 - Fraction(REL_TOL_PROPERTY))) ** 2, (L * (1 + Fraction(REL_TOL_PROPERTY))) ** 2
             if not (lo <= d2 <= hi):
-                ctx.violation("C16:wrong-distance", f"hydrogen {j} is {math.sqrt(float(d2)):.6f} Å from atom {i}; sum of covalent radii {float(L):.4f}", {**tag, "atom": i})
+                ctx.violation("C16:wrong-distance", f"hydrogen {j} is {_sqrt_f(d2)} Å from atom {i}; sum of covalent radii {float(L):.4f}", {**tag, "atom": i})
             if w is not None and fdot(fsub(fvec(p), fa), fvec(w)) >= 0:
                 ctx.violation("C16:not-pointing-away", f"hydrogen {j} on atom {i} does not point away from the centroid of its neighbours", {**tag, "atom": i})
         if len(set(tuple(map(float, p)) for p in P)) != len(P):
@@ -907,6 +937,14 @@ def run(ctx):
     ctx.extra_cov["count_formula_grid"] = (f"{ngrid} centres: all {len(elements_13_16)} elements of groups 13-16 x charges -2..+2 x spins -2..+2 x "
                                            + ("36 neighbour-bond multisets" if not ctx.quick() else
                                               "36 neighbour-bond multisets (B C N O Si P S) / 0..4 single bonds (other elements)"))
+
+    # ---- hinted centres that already carry explicit hydrogens ----
+    for mol in hinted_molecules(rng):
+        ctx.check_deadline()
+        mol = mol_to_json(mol)
+        added = run_case(ctx, mol, "hinted", requests, **kw)
+        account(mol, added, "hinted")
+        ctx.count("hinted-centre-with-explicit-hydrogens" if any(a["z"] == 1 for a in mol["atoms"][1:]) else "hinted-centre")
 
     # ---- every atom type / geometry label, and atoms typed from mol2 tokens: the count ignores the labels ----
     for mol in typed_molecules(rng, elements_13_16):
